@@ -1892,6 +1892,9 @@ class InCaptionPhase(Phase):
     def processEOF(self):
         self.parser.phases["inBody"].processEOF()
 
+    def processSpaceCharacters(self, token):
+        return self.parser.phases["inBody"].processSpaceCharacters(token)
+
     def processCharacters(self, token):
         return self.parser.phases["inBody"].processCharacters(token)
 
@@ -2222,6 +2225,9 @@ class InCellPhase(Phase):
     # the rest
     def processEOF(self):
         self.parser.phases["inBody"].processEOF()
+
+    def processSpaceCharacters(self, token):
+        return self.parser.phases["inBody"].processSpaceCharacters(token)
 
     def processCharacters(self, token):
         return self.parser.phases["inBody"].processCharacters(token)
